@@ -1,11 +1,12 @@
-import SaModel.Lemmas.C03WF
-import SaModel.Lemmas.Utf8
+import SaModel.Lemmas.C03View
 /-
 `PX`: the offsets / UTF-8 part of `WFX`, as a self-contained push invariant.
 
   bytes builders   offsets start at 0, never decrease, end at `data.length`, stay ≤ i32/i64 max (`increment_last`
                    checks), and — for Utf8 / LargeUtf8 — every slot is valid UTF-8 (every chunk is a Rust `&str`)
   list / map       offsets ≤ i32/i64 max
+  view builders    every descriptor designates bytes of the buffer; while the buffer is below 4 GiB every Utf8View
+                   slot is valid UTF-8 (`ViewPX`, Lemmas/C03View.lean)
 
 `PX` needs no other invariant and no assumption on the pushed values or on `Ext`:
    PX b → push ext b x = ok b' → PX b'          (Lemmas/C03PXPush.lean; this file: defaults, nulls, scalars)
@@ -194,6 +195,7 @@ theorem iter_incrementLast {c large : Bool} : ∀ (n : Nat) (base : List Int) (l
 mutual
 def PX : B → Prop
   | .bytes _ ty _ offs data => BytesPX ty offs data
+  | .bytesView _ ty _ views buf => ViewPX ty views buf
   | .list _ large _ _ offs el => OffsLe offs (offMax large) ∧ PX el
   | .fixedSizeList _ _ _ _ _ _ el => PX el
   | .map _ _ _ offs ks vs => OffsLe offs (offMax false) ∧ PX ks ∧ PX vs
